@@ -601,7 +601,10 @@ def rule_C15(ctx, rule="C15"):
                 for st in blk["stmts"]:
                     if st["k"] == "assign" and st["rv"]["k"] == "aggregate" and st["rv"].get("adt") == "errors::to_lean_string_error::ToLeanStringError" and st["rv"].get("variant_name") == "Fmt":
                         direct = True
-        ctx.ob(rule, key, "fallback-error", any("core::fmt::Error" in (x or "") for x in inst) or direct, how="a formatting error becomes ToLeanStringError::Fmt", detail="no conversion of fmt::Error into the Fmt variant in try_to_lean_string")
+        # ... or `Err(ToLeanStringError::from(e))` spelled out on the Err arm
+        via_from = any(callee_name(t) == "<errors::to_lean_string_error::ToLeanStringError as core::convert::From<core::fmt::Error>>::from" and describe(hb, hb.origin_operand(t["args"][0])).startswith("err(core::fmt::Write::write_fmt(")
+                       for hb, _, t in inlined_calls(b))
+        ctx.ob(rule, key, "fallback-error", any("core::fmt::Error" in (x or "") for x in inst) or direct or via_from, how="a formatting error becomes ToLeanStringError::Fmt", detail="no conversion of fmt::Error into the Fmt variant in try_to_lean_string")
     # default method
     b = F.bodies.get("traits::ToLeanString::to_lean_string")
     if b:
@@ -616,3 +619,23 @@ def rule_C15(ctx, rule="C15"):
             if callee_name(t) == "alloc::string::String::as_str":
                 nxt = [(b2, t2) for b2, t2 in tb.calls() if callee_name(t2) == "repr::Repr::from_str" and strip_refs(tb.origin_operand(t2["args"][0])) == ("call", bb)]
                 ctx.ob(rule, key, "String-arm", len(nxt) == 1, how="&String -> Repr::from_str(s.as_str())", detail="String arm does not feed as_str() into Repr::from_str")
+
+
+def rule_presize(ctx, rule="C09-presize"):
+    """the decoding constructors pre-size with the number of input units - a lower bound of the text's
+    UTF-8 length (one unit never decodes to less than one byte; an invalid sequence of up to three bytes
+    becomes the three-byte U+FFFD) - so a text of at most MAX_INLINE_SIZE bytes is never given a heap
+    buffer by the pre-sizing.  An estimate above the real length (three bytes per UTF-16 unit) would."""
+    from guards import inlined_sites
+    F = ctx.F
+    n = 0
+    for fn in ("LeanString::from_utf8_lossy", "LeanString::from_utf16", "LeanString::from_utf16_lossy"):
+        b = F.bodies.get(fn)
+        if not b:
+            continue
+        for st in inlined_sites(b, lambda nm: nm in ("LeanString::with_capacity", "LeanString::try_with_capacity", "repr::Repr::with_capacity", "LeanString::reserve", "LeanString::try_reserve")):
+            n += 1
+            a = st.desc(len(st.t["args"]) - 1)
+            ctx.ob(rule, fn, "presize=len(input):" + st.label(), a == "core::slice::<impl [T]>::len(p1)", line=st.line, how="pre-sized with buf.len()",
+                   detail="%s pre-sizes its result with %s: only the number of input units is known not to exceed the text's length; a larger estimate allocates for texts that fit inline" % (fn, a))
+    ctx.need(rule, "crate", "presizing-sites", n >= 2, "only %d pre-sizing sites in the decoding constructors" % n, how="%d pre-sizing sites" % n)
